@@ -3,6 +3,7 @@
 //! orchestrator evaluates against the reference model with `coqc`.
 mod answers;
 mod loopdiff;
+mod racediff;
 mod ridiff;
 mod rwdiff;
 mod sysdiff;
@@ -20,6 +21,7 @@ fn main() {
         "sysdiff" => sysdiff::run(&a),
         "loopdiff" => loopdiff::run(&a),
         "watchdiff" => watchdiff::run(&a),
+        "racediff" => racediff::run(&a),
         "answers-child" => std::process::exit(answers::child(&a)),
         other => {
             eprintln!("unknown engine {other}");
